@@ -5,7 +5,10 @@ Model/Tie: as C09 (lean/JRV/Model/Pool.lean, lockstep correspondence under harne
 Theorems : lean/JRV/Properties/C10.lean
 Monitor  : harness/poolcommon.py: tasks inside their body <= max, serving workers <= max, >= min from the return of start()
            until stop() is called, starvation at quiescence (a queued task, all serving workers busy, fewer than max
-           workers), deadlock of gate-dependent workloads; constructor table below (documented behaviour).
+           workers), deadlock of gate-dependent workloads; constructor table below (documented behaviour); a counter of
+           waiting / running tasks never goes negative (`counter-drift`).  Class C: the growth claim is also judged after a
+           direct clear() on a running pool, in programs built so that clear() is certain to return (poolcommon.gen_clear_running:
+           every accepted task is inside its body, nobody else enqueues - the deadlock of DESIGN.md 10.1 cannot occur).
 """
 import math
 
@@ -22,11 +25,11 @@ REQUIRED_THEOREMS = [
     "C10_progress_no_stuck_worker", "C10_progress_no_stuck", "C10_progress_measure",
     "C10_gen_poolGrowthRule", "C10_gen_poolSpawnRefusal", "C10_gen_poolRetireRule", "C10_gen_poolPendingStores",
     "C10_gen_poolClearDecrementsTasksOnly", "C10_gen_poolCtorDefaults", "C10_gen_poolUnlockedAccesses",
-    "C10_gen_poolCtorCatches", "C10_gen_poolStartRollback", "C10_gen_poolRunHandlerSafe",
+    "C10_gen_poolCtorCatches", "C10_gen_poolStartRollback", "C10_gen_poolRunHandlerSafe", "C10_gen_poolQueuePuts",
 ]
 
 MIX = [(3, "GR", None), (2, "G", (3, 0)), (1, "G", (2, 0)), (2, "G", None), (2, "L1", None), (2, "L2", None), (1, "W", None),
-       (2, "F", None), (1, "S", None), (1, "N", None)]
+       (2, "F", None), (1, "S", None), (1, "N", None), (1, "C", None), (1, "B", None)]
 
 INF = float("inf")
 ARGS = [1, 2, 3, 0, -1, -5, 7, True, False, 1.0, 2.7, 0.5, -0.5, -3.2, 3.999, "2", " 3 ", "-1", "0", "x", "", "2.5", "1e3",
